@@ -273,6 +273,47 @@ func extractC12() *lean {
 			return false
 		})
 	}
+	// ---- resolveCredential: the "is it a credential -> return it" test sits INSIDE `if mapping.PathNested == nil`, and no
+	// such early return precedes it: a path_nested is always evaluated, also below a value that already is a credential
+	nestedFirst := false
+	if fd := funcDecl(psf0, "resolveCredential"); fd != nil {
+		isCredReturn := func(st ast.Stmt) bool {
+			is, ok := st.(*ast.IfStmt)
+			if !ok || is.Init == nil {
+				return false
+			}
+			as, ok := is.Init.(*ast.AssignStmt)
+			if !ok || len(as.Rhs) != 1 {
+				return false
+			}
+			ta, ok := as.Rhs[0].(*ast.TypeAssertExpr)
+			if !ok || exprString(ta.X) != "decodedTargetValue" || exprString(ta.Type) != "*vc.VerifiableCredential" || len(is.Body.List) == 0 {
+				return false
+			}
+			_, ok = is.Body.List[len(is.Body.List)-1].(*ast.ReturnStmt)
+			return ok
+		}
+		early, inside := false, false
+		for _, st := range fd.Body.List {
+			if isCredReturn(st) {
+				early = true
+			}
+			if is, ok := st.(*ast.IfStmt); ok && exprString(is.Cond) == "mapping.PathNested == nil" {
+				for _, in := range is.Body.List {
+					if isCredReturn(in) {
+						inside = true
+					}
+				}
+				if len(is.Body.List) == 0 {
+					inside = false
+				} else if _, ok := is.Body.List[len(is.Body.List)-1].(*ast.ReturnStmt); !ok {
+					inside = false
+				}
+			}
+		}
+		nestedFirst = inside && !early
+	}
+	l.def("resolveEvaluatesPathNestedBeforeReturningCredential", "Bool", fmt.Sprint(nestedFirst), nestedFirst)
 	l.def("resolveRejectsDuplicateIds", "Bool", dupCheck, dupCheck)
 	// ---- apply: the "take max" loop (the range loop whose body mentions *submissionRequirement.Max): is the
 	// `index == *Max` test the first statement of the body (before a member is taken) or the last (after)?
@@ -626,6 +667,20 @@ func extractC12() *lean {
 			if len(x.Lhs) == 3 && len(x.Rhs) == 1 && strings.HasSuffix(exprString(x.Rhs[0]), "PresentationDefinition.Match()") {
 				if exprString(x.Lhs[0]) != "submissionVCs" && exprString(x.Lhs[0]) != "creds" {
 					zipAligned = false
+				}
+			}
+		case *ast.RangeStmt:
+			// newer shape: every presented credential must be among the matched ones
+			if exprString(x.X) == "presentation.VerifiableCredential" && x.Value != nil && len(x.Body.List) == 1 {
+				if is, ok := x.Body.List[0].(*ast.IfStmt); ok && len(is.Body.List) == 1 {
+					if ue, ok := is.Cond.(*ast.UnaryExpr); ok && ue.Op == token.NOT {
+						if ce, ok := ue.X.(*ast.CallExpr); ok && exprString(ce.Fun) == "containsCredential" && len(ce.Args) == 2 &&
+							exprString(ce.Args[0]) == "creds" && exprString(ce.Args[1]) == exprString(x.Value) {
+							if _, ok := is.Body.List[0].(*ast.ReturnStmt); ok {
+								regAll = true
+							}
+						}
+					}
 				}
 			}
 		case *ast.IfStmt:
